@@ -271,7 +271,8 @@ def check_stream(case):
         # a start signature inside a message body is fine (the scan advances by declared length), but one
         # in a pad / separator would be a message start: not generated
         pass
-    for kw in ({}, {'ignore_value_expectation': True}):
+    for kw in ({}, {'ignore_value_expectation': True}, {'filter_expr': '${%edition} >= 2'},
+               {'filter_expr': '${%length} > 0 and ${%n_subsets} >= 0'}):
         o = sut.call(lambda: [m.serialized_bytes for m in sut.generate_bufr_message(decoder(), case.stream, info_only=True, **kw)])
         if not o.ok:
             out.fail('info-only scan raised %s@%s' % (o.exc_type, o.frame), error=o.msg, flags=sorted(kw))
